@@ -76,6 +76,16 @@ struct SelfList
     SelfList(const SelfList&) = default;
     SelfList(SelfList&&) = default;
 };
+// a recursive value type shared by containers AND elements (a JSON-like node): both sides offer push_back, the INDICES say
+// which one is the container
+struct RNode
+{
+    int id = 0;
+    std::vector<int> items;
+    explicit RNode(int i) : id(i) {}
+    void push_back(const RNode& e) { items.push_back(e.id); }
+    void push_back(RNode&& e) { items.push_back(e.id); }
+};
 inline void check(bool ok, const char* cid, const char* what)
 {
     ++checks;
